@@ -2,6 +2,7 @@ package main
 
 import (
 	"fmt"
+	"os"
 	"go/constant"
 	"go/token"
 	"go/types"
@@ -293,11 +294,16 @@ func (fr *Frame) call(in ssa.Instruction, c *ssa.CallCommon) []Val {
 	if h := specialHandler(ci.display); h != nil {
 		return h.run(fr, in, c, ci, args)
 	}
-	if li, self, isUnlock, ok := fr.lockCall(ci.display, c); ok {
+	if lis, self, isUnlock, ok := fr.lockCall(ci.display, c); ok {
 		if isUnlock {
-			fr.lockInvOblige(in, li, self)
+			for _, li := range lis {
+				fr.lockInvOblige(in, li, self)
+			}
 		} else {
-			defer fr.lockInvAssume(li, self)
+			for i := len(lis) - 1; i >= 0; i-- {
+				defer fr.lockInvAssume(lis[i], self)
+			}
+			defer fr.havocSharedAtLock(lis)
 		}
 	}
 	ct := ex.findContract(ci)
@@ -713,6 +719,10 @@ func (fr *Frame) siteClauses(in ssa.Instruction, c *ssa.CallCommon, display stri
 		ec.names = names
 		ec.at = in
 		ec.goal = true
+		if s.Kind == "ghost" {
+			fr.applyGhost(in, s.Ghost, ec)
+			continue
+		}
 		g, err := ec.tryBool(s.Cl.E)
 		if err != nil {
 			ex.failOb("contract-typechecks", "site/"+s.Callee, err.Error()+" in "+s.Cl.Src, in.Pos())
@@ -743,6 +753,12 @@ func (fr *Frame) siteClausesNamed(in ssa.Instruction, display string, pos token.
 			continue
 		}
 		ec := fr.evalCtx(fr.curMem, fr.entryMem)
+		ec.at = in
+		ec.goal = true
+		if s.Kind == "ghost" {
+			fr.applyGhost(in, s.Ghost, ec)
+			continue
+		}
 		g, err := ec.tryBool(s.Cl.E)
 		if err != nil {
 			ex.failOb("contract-typechecks", "site/"+s.Callee, err.Error()+" in "+s.Cl.Src, pos)
@@ -1080,7 +1096,7 @@ func (ex *Exec) havocLib(mem *MemState) *MemState {
 }
 
 // lockCall recognises Lock/Unlock calls on a mutex field that carries a lock invariant.
-func (fr *Frame) lockCall(display string, c *ssa.CallCommon) (*LockInv, Val, bool, bool) {
+func (fr *Frame) lockCall(display string, c *ssa.CallCommon) ([]*LockInv, Val, bool, bool) {
 	var isUnlock bool
 	switch display {
 	case "sync.(*RWMutex).Lock", "sync.(*RWMutex).RLock", "sync.(*Mutex).Lock":
@@ -1103,11 +1119,15 @@ func (fr *Frame) lockCall(display string, c *ssa.CallCommon) (*LockInv, Val, boo
 		return nil, Val{}, false, false
 	}
 	fname := stt.Field(fa.Field).Name()
+	var out []*LockInv
 	for i := range fr.ex.S.LockInvs {
 		li := &fr.ex.S.LockInvs[i]
 		if (li.Struct == sn || "package-operator.run/"+li.Struct == sn) && li.Field == fname {
-			return li, fr.val(fa.X), isUnlock, true
+			out = append(out, li)
 		}
+	}
+	if len(out) > 0 {
+		return out, fr.val(fa.X), isUnlock, true
 	}
 	return nil, Val{}, false, false
 }
@@ -1138,6 +1158,17 @@ func (fr *Frame) lockInvAssume(li *LockInv, self Val) {
 		return
 	}
 	ex.assume(g, fr.curReach)
+	if fr.isTop && ex.topContract != nil {
+		for _, st := range ex.topContract.Stables {
+			ec2 := fr.evalCtx(fr.curMem, ex.topEntry)
+			if g2, err := ec2.tryBool(st.E); err == nil {
+				ex.assume(g2, fr.curReach)
+				ex.note("stability assumption (fact about lock-protected state that other threads cannot invalidate): %s", st.Src)
+			} else {
+				ex.failOb("contract-typechecks", "stable", err.Error()+" in "+st.Src, token.NoPos)
+			}
+		}
+	}
 }
 
 // guardedField: is the field address a lock-guarded field? returns the address term of its mutex.
@@ -1223,4 +1254,133 @@ func (fr *Frame) returnOrdinalOfCurrentBlock() int {
 		}
 	}
 	return 0
+}
+
+// applyGhost executes a ghost assignment "model(arg) := E" in the current state.
+func (fr *Frame) applyGhost(in ssa.Instruction, g *GhostSet, ec *EvalCtx) {
+	ex := fr.ex
+	an, md := ex.modelArray(g.Model)
+	if md == nil {
+		ex.failOb("contract-typechecks", "ghost", "unknown model field "+g.Model, in.Pos())
+		return
+	}
+	ec.goal = false
+	err := func() (err error) {
+		defer func() {
+			if rr := recover(); rr != nil {
+				if e, ok := rr.(evalErr); ok {
+					err = fmt.Errorf("%s", string(e))
+					return
+				}
+				panic(rr)
+			}
+		}()
+		v := ec.coerce(ec.eval(g.Val.E), md.Ret)
+		nm := fr.curMem.clone()
+		if g.Arg == nil {
+			ex.memSet(nm, an, v.T)
+		} else {
+			row := ec.argFor(ec.eval(g.Arg), md.Params[0])
+			ex.memSet(nm, an, fmt.Sprintf("(store %s %s %s)", ex.memGet(nm, an), row.T, v.T))
+		}
+		fr.curMem = nm
+		return nil
+	}()
+	if err != nil {
+		ex.failOb("contract-typechecks", "ghost", err.Error()+" in ghost "+g.Val.Src, in.Pos())
+	}
+}
+
+// havocSharedAtLock: other threads may have changed lock-protected state before the lock was acquired:
+// Go memory, channel state and the model fields named in the lock invariant become arbitrary (then the invariant is assumed).
+func (fr *Frame) havocSharedAtLock(lis []*LockInv) {
+	ex := fr.ex
+	pre := fr.curMem
+	nm := fr.curMem.clone()
+	ex.havocGoMemory(nm)
+	nm.memLost = fr.curMem.memLost
+	nm.ep.base = ex.lastRef // what other threads left behind pre-exists from here on
+	if nm.ep.base == "" {
+		nm.ep.base = "allocbase"
+	}
+	// memory allocated by this very function execution is not visible to other threads yet (or is only read by them)
+	var ks []string
+	for k := range ex.arrSorts {
+		if strings.HasPrefix(k, "M_") || strings.HasPrefix(k, "MH_") || strings.HasPrefix(k, "MV_") || k == "ML" {
+			ks = append(ks, k)
+		}
+	}
+	sort.Strings(ks)
+	for _, k := range ks {
+		if _, touched := pre.arrays[k]; !touched || os.Getenv("NO_LOCAL_KEEP") != "" {
+			continue
+		}
+		ex.emit("(assert (forall ((a Int)) (! (=> (> (root a) allocbase) (= (select %s a) (select %s a))) :pattern ((select %s a)))))", ex.memGet(nm, k), ex.memGet(pre, k), ex.memGet(nm, k))
+	}
+	nm.ep.base = ex.lastRef // what other threads left behind pre-exists from here on
+	if nm.ep.base == "" {
+		nm.ep.base = "allocbase"
+	}
+	for _, k := range []string{"CH_cap", "CH_queued"} {
+		if _, ok := ex.arrSorts[k]; ok {
+			ex.memHavoc(nm, k)
+		}
+	}
+	done := map[string]bool{}
+	for _, li := range lis {
+		for _, mn := range modelsIn(li.Cl.E, ex.S) {
+			if mn == "held" || done[mn] {
+				continue
+			}
+			done[mn] = true
+			an, _ := ex.modelArray(mn)
+			ex.memHavoc(nm, an)
+		}
+	}
+	fr.curMem = nm
+}
+
+func modelsIn(e Expr, S *Specs) []string {
+	seen := map[string]bool{}
+	var walk func(e Expr)
+	walk = func(e Expr) {
+		switch x := e.(type) {
+		case *ECall:
+			if _, ok := S.Models[x.Fn]; ok {
+				seen[x.Fn] = true
+			}
+			if d, ok := S.Defs[x.Fn]; ok {
+				walk(d.Body)
+			}
+			for _, a := range x.Args {
+				walk(a)
+			}
+		case *EIdent:
+			if m, ok := S.Models[x.Name]; ok && len(m.Params) == 0 {
+				seen[x.Name] = true
+			}
+		case *EUn:
+			walk(x.X)
+		case *EBin:
+			walk(x.X)
+			walk(x.Y)
+		case *ESel:
+			walk(x.X)
+		case *EIdx:
+			walk(x.X)
+			walk(x.I)
+		case *EUpd:
+			walk(x.X)
+			walk(x.I)
+			walk(x.V)
+		case *EQuant:
+			walk(x.Body)
+		case *EIte:
+			walk(x.C)
+			walk(x.A)
+			walk(x.B)
+		}
+	}
+	walk(e)
+	return sortedKeys(seen)
 }
